@@ -22,7 +22,11 @@ import time
 ROOT = os.path.dirname(os.path.dirname(os.path.abspath(__file__)))
 REPO = "/repo"
 HARNESS = os.path.join(ROOT, "harness")
-CVH = os.path.join(HARNESS, "target", "debug", "cvh")
+# VERIF_TARGET_DIR: build the harness into another target directory (used by bin/mutant, which runs
+# a scratch copy of the whole framework so that a mutant run never touches this tree's evidence,
+# work files or build output)
+TARGET_DIR = os.environ.get("VERIF_TARGET_DIR") or os.path.join(HARNESS, "target")
+CVH = os.path.join(TARGET_DIR, "debug", "cvh")
 JAR = "/opt/veriftools/tla/tla2tools.jar:/opt/veriftools/tla/CommunityModules-deps.jar"
 TLA_COMMON = os.path.join(ROOT, "tla", "common")
 
@@ -44,6 +48,8 @@ def build_harness():
     env = dict(os.environ, CARGO_NET_OFFLINE="true")
     t0 = time.time()
     cmd = ["cargo", "build", "--offline"]
+    if os.environ.get("VERIF_TARGET_DIR"):
+        cmd += ["--target-dir", TARGET_DIR]
     src = os.environ.get("CALAMINE_SRC")
     if src:
         # mutation testing only: compile a scratch copy of calamine instead of /repo
@@ -396,6 +402,17 @@ class Ctx:
         os.makedirs(os.path.join(ROOT, evdir), exist_ok=True)
         with open(os.path.join(ROOT, evdir, self.pid + ".json"), "w") as f:
             json.dump(ev, f, indent=1, default=str)
+        # disk hygiene: the behaviour files of a thorough run reach tens of GB over all checks; when
+        # nothing was found they are of no further use (a violation keeps everything for the replay)
+        if not self.violations and not os.environ.get("VERIF_KEEP_WORK"):
+            for dirpath, _dirs, files in os.walk(self.work):
+                for fn in files:
+                    fp = os.path.join(dirpath, fn)
+                    try:
+                        if os.path.getsize(fp) > 8 * 1024 * 1024:
+                            os.remove(fp)
+                    except OSError:
+                        pass
         log("%s %s: %d violation(s), %d known finding(s), %.1fs" %
             (self.pid, self.tier, len(self.violations), len(self.known_hit), wall))
         return 1 if self.violations else 0
